@@ -284,13 +284,14 @@ def run_unit(run, o):
         res['checks'] = int(m.group(1)) + int(m.group(2))
         if other:
             res['reason'] = 'verus tool/type error: ' + '; '.join(other[:3])[:300]
-        elif contract:
+        else:
+            # Every obligation of this unit is discharged on the unchanged tree; one that now fails is reported
+            # (Verus gives no model, so the VIOLATION line will say no-failing-input-found unless a Kani
+            # companion obligation in the same cone produces the input).
             res['verdict'] = 'failed'
             locs = re.findall(r'error: ([^\n]*)\n\s+--> [^\n]*?:(\d+):\d+\n[^\n]*\n\s*\d+ \|\s*([^\n]*)', out)
             res['failed'] = [dict(id='verus', desc=e[0] + ': ' + e[2].strip()[:160], loc='%s:%s' % (os.path.basename(path), e[1]))
-                             for e in locs if any(k in e[0] for k in CONTRACT_FAIL)] or [dict(id='verus', desc=c, loc=path) for c in contract]
-        else:
-            res['reason'] = 'only inserted proof hints failed (proof did not go through; the contract itself was not refuted): ' + '; '.join(hints[:2])
+                             for e in locs] or [dict(id='verus', desc=c, loc=path) for c in contract + hints]
     else:
         errs = [e[1] for e in VERR.findall(out)]
         res['reason'] = 'verus produced no result: ' + ('; '.join(errs[:3])[:300] or out[-300:])
